@@ -3,7 +3,7 @@
 usage: runmut.py <patch-root> <wt-name> <seed:prop[,prop]> ...   e.g. C06/a:C06,C08
 patch-root has out-Cxx/<v>/patch.diff (sub-agent output) or <Cxx><v>/patch.diff (/verif/seeded)."""
 import os, subprocess, sys, time, json
-ROOT, WTN = sys.argv[1], sys.argv[2]
+ROOT, WTN = os.path.abspath(sys.argv[1]), sys.argv[2]
 WT = '/tmp/seedwork/' + WTN
 LOG = '/tmp/seedwork/mut-results.jsonl'
 if not os.path.exists(WT):
